@@ -83,6 +83,18 @@ func rootsFor(prop, tier string) []Root {
 				add("VH_C13_Str", t, 1200)
 			}
 		}
+	case "C01":
+		for cfg := 0; cfg < 16; cfg++ {
+			if cfg&2 != 0 && cfg&4 == 0 {
+				continue // v2 row events never come with 4-byte table ids
+			}
+			if thorough || cfg == 0 || cfg == 5 || cfg == 7 || cfg == 15 {
+				rs = append(rs, Root{Prop: prop, Harness: "VH_C01_History", Params: []int{cfg, 1}, MaxDecs: 4000, MaxSteps: 40000000})
+			}
+			if thorough || cfg == 0 || cfg == 7 || cfg == 13 || cfg == 4 {
+				rs = append(rs, Root{Prop: prop, Harness: "VH_C01_History", Params: []int{cfg, 0}, MaxDecs: 4000, MaxSteps: 40000000})
+			}
+		}
 	case "C02":
 		big := func(h string, p ...int) {
 			rs = append(rs, Root{Prop: prop, Harness: h, Params: p, MaxDecs: 2000, MaxSteps: 20000000})
